@@ -61,6 +61,8 @@ pub fn run(ctx: &Ctx) -> i32 {
     let nplain = trees.len();
     // the re-used-marker instantiation adds multi-position targets
     trees.extend(families::plain(if th { 6 } else { 5 }));
+    // a whole assertion occurring twice (nested in a sibling or in the wrapped subject)
+    trees.extend(families::repeated(if th { 7 } else { 6 }));
     let nbuilt = trees.len();
     trees.extend(families::decode_only());
     let acc = trees.par_iter().enumerate().with_max_len(1).map(|(ti, m)| {
@@ -178,7 +180,7 @@ pub fn run(ctx: &Ctx) -> i32 {
         acc
     }).reduce(Acc::new, Acc::merge);
     // wide / deep shapes (array heads at 23/24/255/256, 24-deep wrapping): single and pair targets, both modes, three actions
-    let wide = families::wide_tier(th);
+    let wide = families::wide_all(th);
     let accw = wide.par_iter().enumerate().with_max_len(1).map(|(wi, (wn, m))| {
         let mut acc = Acc::new();
         let Ok(e) = catch(|| bind::build(m, 0)) else { return acc };
@@ -186,13 +188,17 @@ pub fn run(ctx: &Ctx) -> i32 {
         let picks: Vec<usize> = (0..ds.len()).filter(|i| *i < 6 || i % 61 == 0 || *i + 2 >= ds.len()).collect();
         let mut sets: Vec<Vec<D>> = picks.iter().map(|i| vec![ds[*i]]).collect();
         for w in picks.windows(2) { sets.push(vec![ds[w[0]], ds[w[1]]]) }
+        // large target sets: more than 16 / 32 / 64 targets, from either end of the digest list, every second digest, padded with absent digests
+        for k in [16usize, 17, 33, 65] { if ds.len() > k { sets.push(ds[..k].to_vec()); sets.push(ds[ds.len() - k..].to_vec()) } }
+        if ds.len() > 8 { sets.push(ds.iter().step_by(2).cloned().collect()); sets.push(ds.iter().skip(1).step_by(2).cloned().collect()) }
+        for k in [16usize, 40] { let mut v = vec![ds[ds.len() / 2]]; v.extend(families::absent_digests(k)); sets.push(v) }
         for tv in sets { let t: HashSet<D> = tv.iter().cloned().collect(); let tset = bind::dset(&tv);
             for revealing in [false, true] { for (kind, action) in super::c02::actions() {
                 acc.inc("elisions");
                 let want = ops::elide(m, &t, revealing, kind);
                 match catch(|| e.elide_set_with_action(&tset, revealing, &action)) {
                     Err(_) => acc.inc("panics_no_result_counted_under_C16"),
-                    Ok(r) => { if let Some((path, what)) = matches(&bind::observe(&r), &bind::expected(&want), &HashSet::new(), kind, "") { acc.viol(format!("C03|wide|{}|{kind:?}|{what}", if revealing { "revealing" } else { "removing" }), format!("wide shape {wn}: result differs from the statement's semantics at {path}"), format!("wide/{wn}/{}/rev{}/{kind:?}", tv.iter().map(|d| hex::encode(&d[..3])).collect::<Vec<_>>().join("+"), revealing as u8), json!({"shape": wn})) }
+                    Ok(r) => { if let Some((path, what)) = matches(&bind::observe(&r), &bind::expected(&want), &HashSet::new(), kind, "") { acc.viol(format!("C03|wide|{}|{kind:?}|{what}", if revealing { "revealing" } else { "removing" }), format!("wide shape {wn}: result differs from the statement's semantics at {path}"), format!("wide/{wn}/{}/{}targets/rev{}/{kind:?}", tv.iter().take(4).map(|d| hex::encode(&d[..3])).collect::<Vec<_>>().join("+"), tv.len(), revealing as u8), json!({"shape": wn})) }
                         else if kind == Kind::Elided && Some(r.to_cbor_data()) != want.encode() { acc.viol("C03|wide|Elided|bytes", "serialised result is not the encoding of the model result", format!("wide/{wn}"), json!({"shape": wn})) }
                         if want != *m { acc.nontrivial(&("wide", wi, tv.len(), revealing, kind)); } }
                 }
